@@ -140,13 +140,21 @@ def calculateRemap (n : NodeInfo) (shareBase : Int) (ws : List (String × Worklo
 /-- the sum built by getNodeResourceInfo: `actuallyWorkloadsUsage.Add(w)` for every workload -/
 def sumWorkloads (ws : List WorkloadRes) : WorkloadRes := ws.foldl WorkloadRes.add {}
 
+/-- the NUMA ids compared by getNodeResourceInfo (fixed code): every id known to the capacity,
+    the recorded usage or the workloads' sum, each once (Go builds a key set) -/
+def numaIDs (n : NodeInfo) (s : WorkloadRes) : List String :=
+  n.capacity.numaMemory.keys ++
+  (n.usage.numaMemory.keys.filter fun k => !n.capacity.numaMemory.keys.contains k) ++
+  (s.numaMemory.keys.filter fun k => !n.capacity.numaMemory.keys.contains k && !n.usage.numaMemory.keys.contains k)
+
 /-- getNodeResourceInfo: diffs (as tags) between the stored usage and the workloads' sum;
-    compared over the keys of the *capacity* maps only, as written -/
+    per-core pieces are compared over the keys of the *capacity* map only, as written
+    (usage keys outside it are rejected by Validate) -/
 def resourceDiffs (n : NodeInfo) (ws : List WorkloadRes) : List String :=
   let s := sumWorkloads ws
   (if s.cpuRequest ≠ n.usage.cpu then ["cpu"] else []) ++
   (n.capacity.cpuMap.keys.filter fun cpu => s.cpuMap.get cpu ≠ n.usage.cpuMap.get cpu).map ("cpumap:" ++ ·) ++
-  (n.capacity.numaMemory.keys.filter fun id => s.numaMemory.get id ≠ n.usage.numaMemory.get id).map ("numa:" ++ ·) ++
+  ((numaIDs n s).filter fun id => s.numaMemory.get id ≠ n.usage.numaMemory.get id).map ("numa:" ++ ·) ++
   (if n.usage.memory ≠ s.memoryRequest then ["memory"] else [])
 
 /-- FixNodeResource: (stored info afterwards, reported usage, reported diffs) -/
